@@ -3,6 +3,7 @@ package main
 import (
 	"encoding/json"
 	"fmt"
+	"sort"
 	"strconv"
 	"strings"
 	"time"
@@ -116,6 +117,7 @@ func parseCertLine(line string) ([]int, bool) {
 }
 
 type solveRun struct {
+	analyses []solver.VerifAnalysis
 	status  solver.Status
 	model   []bool
 	lines   [][]int
@@ -155,6 +157,16 @@ func solveCnf(c *CnfCase, certified bool, nbMax int) solveRun {
 	if nbMax > 0 {
 		s.VerifSetNbMax(nbMax)
 	}
+	nAn := 0
+	s.VerifSetAnalyzeHook(func(a solver.VerifAnalysis) {
+		nAn++
+		if nAn <= 12 || nAn%40 == 0 { // the first analyses and a thin sample of the later ones
+			if len(res.analyses) < 40 {
+				res.analyses = append(res.analyses, a)
+			}
+		}
+	})
+	defer s.VerifSetAnalyzeHook(nil)
 	done := make(chan struct{})
 	if certified {
 		s.Certified = true
@@ -259,6 +271,10 @@ func runCnfCase(o *Oracle, d json.RawMessage, oc *Outcome, prop string) {
 			oc.Tag("cert-lines>0")
 		}
 	}
+	analysisDiff(o, oc, &run, entry)
+	if c.Front != "dimacs" {
+		parseSliceDiff(o, oc, &c)
+	}
 	if c.Certified {
 		checkCert(&run, "certified")
 		// refinement: the run, seen through what it emitted, is a run of the abstract machine
@@ -326,4 +342,177 @@ func runEvents(r *solveRun) []string {
 		evs = append(evs, "U")
 	}
 	return evs
+}
+
+
+// analysisQuery renders a snapshot of learnClause's inputs for the Lean mirror GS.Analyze, and
+// the answer the Go code gave in the mirror's output format.
+func analysisQuery(a *solver.VerifAnalysis) (query, goAnswer string) {
+	level := map[int]int{}
+	var trail, reasons []string
+	for i, l := range a.Trail {
+		level[absInt(l)] = a.Levels[i]
+		as := 0
+		if a.Assumed[i] {
+			as = 1
+		}
+		trail = append(trail, fmt.Sprintf("%d %d %d", l, a.Levels[i], as))
+		if a.Reasons[i] == nil {
+			reasons = append(reasons, "0")
+		} else {
+			reasons = append(reasons, encInts(a.Reasons[i].Lits))
+		}
+	}
+	query = fmt.Sprintf("analyze %d | %s | %s | %s", a.Lvl, encInts(a.Conflict.Lits), strings.Join(trail, " ; "), strings.Join(reasons, " ; "))
+	switch {
+	case a.TopLevel:
+		goAnswer = "toplevel"
+	case a.Learned == nil:
+		goAnswer = fmt.Sprintf("unit %d", a.Unit)
+	default:
+		rest := append([]int{}, a.Learned[1:]...)
+		sort.SliceStable(rest, func(i, j int) bool {
+			li, lj := level[absInt(rest[i])], level[absInt(rest[j])]
+			if li != lj {
+				return li > lj
+			}
+			return absInt(rest[i]) < absInt(rest[j])
+		})
+		goAnswer = fmt.Sprintf("learned %d | %s", a.Learned[0], encInts(rest))
+	}
+	return
+}
+
+// analysisDiff compares the sampled conflict analyses of a run with the Lean mirror; it also
+// checks the ordering property the solver relies on (position 1 holds a literal of the
+// highest level among the non-asserting literals).
+func analysisDiff(o *Oracle, oc *Outcome, r *solveRun, entry string) {
+	if !oracleHasOp(o, "analyze") {
+		return
+	}
+	for i := range r.analyses {
+		a := &r.analyses[i]
+		q, want := analysisQuery(a)
+		got := o.Ask(q)
+		oc.Corr++
+		if got != want {
+			oc.Fail("corr", "analyze-mirror", entry, "learnClause returned %q, the Lean mirror GS.Analyze %q on %s", want, got, q)
+			return
+		}
+		if len(a.Learned) > 2 {
+			level := map[int]int{}
+			for j, l := range a.Trail {
+				level[absInt(l)] = a.Levels[j]
+			}
+			for _, l := range a.Learned[2:] {
+				if level[absInt(l)] > level[absInt(a.Learned[1])] {
+					oc.Fail("spec", "learned-clause-order", entry, "learned clause %v: position 1 is not at the highest remaining level", a.Learned)
+					return
+				}
+			}
+		}
+	}
+	if len(r.analyses) > 0 {
+		oc.Tag("analyses-compared")
+	}
+}
+
+var opProbe = map[string]bool{}
+
+// oracleHasOp tells whether the driver knows an op (mirrors are integrated one by one).
+func oracleHasOp(o *Oracle, op string) bool {
+	if v, ok := opProbe[op]; ok {
+		return v
+	}
+	a := o.Ask(op)
+	opProbe[op] = a != "bad-op" || false
+	// a known op called without arguments also answers bad-op: probe with a harmless full query
+	if op == "analyze" {
+		opProbe[op] = o.Ask("analyze 2 | 1 | -1 2 0 | 0") != "bad-op"
+	}
+	return opProbe[op]
+}
+
+
+func fmtProblem(pb *solver.Problem, withWeights bool) string {
+	st := map[solver.Status]int{solver.Indet: 0, solver.Sat: 1, solver.Unsat: 2}[pb.Status]
+	units := make([]int, len(pb.Units))
+	for i, u := range pb.Units {
+		units[i] = int(u.Int())
+	}
+	res := fmt.Sprintf("status=%d nbvars=%d units=%s", st, pb.NbVars, encInts(units))
+	if pb.Status == solver.Unsat {
+		return res
+	}
+	var cls []string
+	for _, c := range pb.Clauses {
+		if withWeights {
+			type term struct{ w, l int }
+			ts := make([]term, c.Len())
+			for i := range ts {
+				ts[i] = term{c.Weight(i), int(c.Get(i).Int())}
+			}
+			sort.SliceStable(ts, func(i, j int) bool {
+				if ts[i].w != ts[j].w {
+					return ts[i].w > ts[j].w
+				}
+				return ts[i].l < ts[j].l
+			})
+			g := fmt.Sprint(c.Cardinality())
+			for _, t := range ts {
+				g += fmt.Sprintf(" %d %d", t.w, t.l)
+			}
+			cls = append(cls, g)
+			continue
+		}
+		g := ""
+		if c.Cardinality() != 1 || withCard {
+			g = fmt.Sprint(c.Cardinality()) + " "
+		}
+		lits := make([]int, c.Len())
+		for i := range lits {
+			lits[i] = int(c.Get(i).Int())
+		}
+		cls = append(cls, g+encInts(lits))
+	}
+	return res + " clauses=" + strings.Join(cls, " ; ")
+}
+
+var withCard = false
+
+// mirrorProblem strips the clause part of a mirror answer when the status is unsat (Go leaves
+// half-simplified clauses behind there; only status, nbvars and units are meaningful).
+func mirrorProblem(a string) string {
+	if strings.HasPrefix(a, "status=2") {
+		if i := strings.Index(a, " clauses="); i >= 0 {
+			return a[:i]
+		}
+	}
+	return strings.TrimRight(a, " ")
+}
+
+// parseSliceDiff: ParseSlice / ParseSliceNb (unit collection, simplify2) must produce exactly
+// the problem the Lean mirror GS.Simplify.parseSlice produces: same status, variable count,
+// units and clauses, in the same order.
+func parseSliceDiff(o *Oracle, oc *Outcome, c *CnfCase) {
+	for _, cl := range c.Clauses {
+		if len(cl) == 0 {
+			break
+		}
+	}
+	nb := 0
+	if c.Front == "slicenb" {
+		nb = c.NbVars
+	}
+	pb, err := buildCnfProblem(c)
+	if err != nil {
+		return
+	}
+	withCard = false
+	got := strings.TrimRight(fmtProblem(pb, false), " ")
+	want := mirrorProblem(o.Ask(fmt.Sprintf("pslice %d | %s", nb, encCnf(c.Clauses))))
+	oc.Corr++
+	if got != want {
+		oc.Fail("corr", "parseslice-mirror", "solver.ParseSlice", "Go parsed to %q, the Lean mirror GS.Simplify.parseSlice to %q", got, want)
+	}
 }
